@@ -18,7 +18,8 @@ package shimagent
 //@ # the blob identity of a certificate wrapper is, by definition, what its Marshal returns: the content of its (immutable) Blob field
 //@ immutable certificate.Blob
 //@ onalloc certificate(c): blobid(asKey(c)) == cblob(c)
-//@ ghost func certsNonNil(s *Server) bool = forall(h#bytes, h in dom(s.certs), s.certs[h] != nil && h == sha(blobid(asKey(s.certs[h]))))
+//@ ghost func certsNonNil(s *Server) bool = forall(h#bytes, h in dom(s.certs), s.certs[h] != nil && h == sha(blobid(asKey(s.certs[h]))) &&
+//@   s.certs[h].Certificate != nil && s.certs[h].Certificate.Key != nil)
 //@ ghost func cacheOff(s *Server) bool = !s.noUpstreamSSHCACert ==> mapdom(s.upstreamSSHCACertCache) == nokeys(s.upstreamSSHCACertCache)
 //@ ghost func inv2(s *Server) bool = certsNonNil(s) && cacheOff(s)
 //@ ghost func condsOK(s *Server) bool = forall(i, 0 <= i && i < 40, s.conds[i] != nil && s.conds[i].L != nil && mstate(pl(s.conds[i].L)) == 0)
